@@ -42,6 +42,10 @@ theorem refines_state (fuel : Nat) (P : Prog) (s : St) (h : Model.runTop fuel P 
   let ⟨t, ht, hR⟩ := runTop_sim fuel P P.top {} _ s Emit.inv_init init_related quiet_init h
   ⟨t, ht, hR, (Emit.runTop_good fuel P {} P.top s Emit.inv_init h).inv⟩
 
+example : ∀ fuel s, Model.runTop fuel exProg {} exProg.top = some s →
+    ∃ t, Spec.runTop fuel exProg { k1 := true, k2 := true } exProg.top = some t ∧ R s t ∧ Emit.Inv s :=
+  fun fuel s h => refines_state fuel exProg s h
+
 /-- **the refinement theorem**: for every fuel and program, if the mechanism model's run terminates
     in `s`, some run of the specification `S'` (`k1 := true, k2 := true`) terminates in a `t` whose
     trace allows the model's trace, event by event (equal, or `*` in the specification for a result the
@@ -51,23 +55,10 @@ theorem refines (fuel : Nat) (P : Prog) (s : St) (h : Model.runTop fuel P {} P.t
   let ⟨t, ht, hR, _⟩ := refines_state fuel P s h
   ⟨fuel, t, ht, hR.trace⟩
 
-/-- a concrete program with a re-entrant emission: slot body 1 disconnects its own connection, emits
-    the signal again and asks for its size -/
-def exProg : Prog :=
-  { bodies := [(1, [⟨"disc 1", .disc 1⟩, ⟨"emit 1 0", .emit 1 0 .sum false⟩, ⟨"size? 1", .sizeq 1⟩])],
-    top := [⟨"newG 1 V", .newG 1 (some .V)⟩, ⟨"connfn 1 1 fn 1", .connfn 1 1 (.fn 1) false⟩,
-            ⟨"connfn 2 1 fn 2", .connfn 2 1 (.fn 2) true⟩, ⟨"emit 1 7", .emit 1 7 .sum false⟩] }
-
 /-- the theorem applies to all runs of `exProg` -/
 example : ∀ fuel s, Model.runTop fuel exProg {} exProg.top = some s →
     ∃ fuel' t, Spec.runTop fuel' exProg { k1 := true, k2 := true } exProg.top = some t ∧ Allows t.trace s.trace :=
   fun fuel s h => refines fuel exProg s h
-
-/-- the slot invocations logged in a trace: `(depth, functor, argument)` in order (newest first) -/
-def calls (tr : List Event) : List (Nat × Nat × Nat) :=
-  tr.filterMap (fun e => match e with
-    | .call d fid a => some (d, fid, a)
-    | .res _ _ _ => none)
 
 /-- related traces contain the same slot invocations -/
 theorem allows_calls {ts tm : List Event} (h : Allows ts tm) : calls ts = calls tm := by
@@ -86,6 +77,10 @@ theorem refines_calls (fuel : Nat) (P : Prog) (s : St) (h : Model.runTop fuel P 
     ∃ t, Spec.runTop fuel P { k1 := true, k2 := true } P.top = some t ∧ calls t.trace = calls s.trace :=
   let ⟨t, ht, hR, _⟩ := refines_state fuel P s h
   ⟨t, ht, allows_calls hR.trace⟩
+
+example : ∀ fuel s, Model.runTop fuel exProg {} exProg.top = some s →
+    ∃ t, Spec.runTop fuel exProg { k1 := true, k2 := true } exProg.top = some t ∧ calls t.trace = calls s.trace :=
+  fun fuel s h => refines_calls fuel exProg s h
 
 example : calls [.res 0 "emit 1 7" "r=void", .call 0 2 7, .res 0 "newG 1 V" "ok"] = [(0, 2, 7)] := rfl
 
